@@ -5,11 +5,17 @@
    Frequency/Percentage: freq_rt f = UnmarshalJSON (MarshalJSON f) with the
    decimal text in between trusted (strconv prints the shortest text that parses
    back to the same float64).  Floats are Coq's primitive binary64 floats.
-   The 20 payload structs and ISO8601Time have no repository logic to model:
-   differential only (harness), stated in MANIFEST. *)
+   Key envelopes: KEKs of 16, 24 and 32 bytes (AES-128/192/256, FIPS-197 key
+   expansion for Nk = 4, 6, 8) and the key-size error for every other length.
+   ISO8601Time: time.Format / time.Parse with the RFC 3339 layout as functions
+   on (unix seconds, zone offset) and byte strings.
+   The 20 payload structs have no repository logic to model (struct tags read
+   by encoding/json): differential only (harness), stated in MANIFEST. *)
 From Coq Require Import List NArith ZArith Reals Floats Bool.
-From LW Require Import Base.Outcome Base.Hex Crypto.KeyWrap
-  Backend.F64 Backend.F64Sweep Backend.F64Proofs Backend.HexBytes Backend.KeyEnvelope Backend.EnvelopeProofs.
+From LW Require Import Base.Outcome Base.Hex Crypto.AES Crypto.AESAny Crypto.AESAnyProofs
+  Crypto.KeyWrap Crypto.KeyWrapAny Crypto.KeyWrapAnyProofs
+  Backend.F64 Backend.F64Sweep Backend.F64Proofs Backend.HexBytes Backend.KeyEnvelope Backend.EnvelopeProofs
+  Backend.KeyEnvelopeAny Backend.EnvelopeAnyProofs Backend.Iso8601 Backend.Iso8601Proofs.
 Import ListNotations.
 
 (* ---------- Percentage ---------- *)
@@ -63,54 +69,144 @@ Theorem C17_hexbytes_accepts_only_hex_pairs : forall text bs, hexbytes_unmarshal
 Proof. exact hexbytes_accepts_even_hex. Qed.
 Print Assumptions C17_hexbytes_accepts_only_hex_pairs.
 
-(* ---------- key envelopes (AES-128 KEK; AES-192/256 are not modelled) ---------- *)
+(* ---------- AES-128/192/256 and RFC 3394 under every KEK size ---------- *)
+(* the block cipher behind the envelope: defined exactly for 16/24/32-byte keys, and decryption inverts encryption *)
+Theorem C17_aes_any_inverse : forall k b,
+  (length k = 16 \/ length k = 24 \/ length k = 32)%nat -> Forall (fun x => x < 256) k ->
+  length b = 16%nat -> Forall (fun x => x < 256) b ->
+  exists c, aes_encrypt_any k b = Some c /\ length c = 16%nat /\ Forall (fun x => x < 256) c /\
+            aes_decrypt_any k c = Some b.
+Proof. exact aes_any_inverse. Qed.
+Print Assumptions C17_aes_any_inverse.
+
+Theorem C17_aes_key_size_error : forall k b,
+  ~ (length k = 16 \/ length k = 24 \/ length k = 32)%nat ->
+  aes_encrypt_any k b = None /\ aes_decrypt_any k b = None.
+Proof. exact aes_any_key_size_error. Qed.
+Print Assumptions C17_aes_key_size_error.
+
+(* for 16-byte keys the generic FIPS-197 key expansion is the AES-128 model used by the other properties *)
+Theorem C17_aes_any_is_aes128 : forall k b, length k = 16%nat -> aes_encrypt_any k b = Some (aes_encrypt k b).
+Proof. exact aes_encrypt_any_128. Qed.
+Print Assumptions C17_aes_any_is_aes128.
+
+(* RFC 3394: wrap, then unwrap with the same KEK, for any number n of 64-bit blocks *)
+Theorem C17_keywrap_any_roundtrip : forall kek p n,
+  (length kek = 16 \/ length kek = 24 \/ length kek = 32)%nat -> Forall (fun x => x < 256) kek ->
+  Forall (fun x => x < 256) p -> length p = (8 * n)%nat ->
+  exists w, wrap_any kek p = Some w /\ unwrap_any kek w = Some p /\
+            length w = (length p + 8)%nat /\ Forall (fun x => x < 256) w.
+Proof. exact unwrap_wrap_any. Qed.
+Print Assumptions C17_keywrap_any_roundtrip.
+
+Theorem C17_keywrap_any_ok_iff_iv : forall kek d p,
+  unwrap_any kek d = Some p <-> unwrap_raw_any kek d = Some (default_iv, p).
+Proof. exact unwrap_any_ok_iff_iv. Qed.
+Print Assumptions C17_keywrap_any_ok_iff_iv.
+
+(* ---------- key envelopes: KEKs of 16, 24 and 32 bytes ---------- *)
 Theorem C17_no_label_clear : forall label kek key,
-  label = [] \/ kek = [] -> new_key_envelope label kek key = Ok ([], key).
-Proof. exact no_label_clear. Qed.
+  label = [] \/ kek = [] -> new_key_envelope_any label kek key = Ok ([], key).
+Proof. exact no_label_clear_any. Qed.
 Print Assumptions C17_no_label_clear.
 
 Theorem C17_unwrap_wrap : forall label kek key,
-  label <> [] -> length kek = 16%nat -> Forall (fun b => b < 256) kek ->
-  length key = 16%nat -> Forall (fun b => b < 256) key ->
-  exists w, new_key_envelope label kek key = Ok (label, w) /\ length w = 24%nat /\
-            envelope_unwrap w kek = Ok key.
-Proof. exact envelope_unwrap_wrap. Qed.
+  label <> [] -> (length kek = 16 \/ length kek = 24 \/ length kek = 32)%nat ->
+  Forall (fun b => b < 256) kek -> length key = 16%nat -> Forall (fun b => b < 256) key ->
+  exists w, new_key_envelope_any label kek key = Ok (label, w) /\ length w = 24%nat /\
+            envelope_unwrap_any w kek = Ok key.
+Proof. exact envelope_unwrap_wrap_any. Qed.
 Print Assumptions C17_unwrap_wrap.
 
+(* every other KEK length is refused by both functions (aes.NewCipher) *)
+Theorem C17_bad_kek_is_error : forall label kek key d,
+  label <> [] -> kek <> [] -> ~ (length kek = 16 \/ length kek = 24 \/ length kek = 32)%nat ->
+  new_key_envelope_any label kek key = Err /\ envelope_unwrap_any d kek = Err.
+Proof. exact envelope_bad_kek. Qed.
+Print Assumptions C17_bad_kek_is_error.
+
 (* unwrapping succeeds exactly when the RFC 3394 integrity check passes; never panics on >= 16 bytes *)
-Theorem C17_unwrap_ok_iff_iv : forall d kek k,
-  length kek = 16%nat -> (16 <= length d)%nat ->
-  (envelope_unwrap d kek = Ok k <->
-   fst (unwrap_raw kek d) = default_iv /\ k = copy16 (snd (unwrap_raw kek d))) /\
-  (envelope_unwrap d kek = Err <-> fst (unwrap_raw kek d) <> default_iv) /\
-  envelope_unwrap d kek <> Panic.
-Proof. exact envelope_unwrap_ok_iff_iv. Qed.
+Theorem C17_unwrap_ok_iff_iv : forall d kek,
+  (length kek = 16 \/ length kek = 24 \/ length kek = 32)%nat -> (16 <= length d)%nat ->
+  exists iv plain, unwrap_raw_any kek d = Some (iv, plain) /\
+    (forall k, envelope_unwrap_any d kek = Ok k <-> iv = default_iv /\ k = copy16 plain) /\
+    (envelope_unwrap_any d kek = Err <-> iv <> default_iv) /\
+    envelope_unwrap_any d kek <> Panic.
+Proof. exact envelope_unwrap_any_ok_iff_iv. Qed.
 Print Assumptions C17_unwrap_ok_iff_iv.
 
 (* and then the data is a genuine wrap under this KEK *)
 Theorem C17_unwrap_only_wrapped : forall d kek k n,
-  length kek = 16%nat -> Forall (fun b => b < 256) kek -> Forall (fun b => b < 256) d ->
+  (length kek = 16 \/ length kek = 24 \/ length kek = 32)%nat ->
+  Forall (fun b => b < 256) kek -> Forall (fun b => b < 256) d ->
   length d = (8 * (n + 1))%nat -> (1 <= n)%nat ->
-  envelope_unwrap d kek = Ok k -> exists p, k = copy16 p /\ wrap kek p = d.
-Proof. exact envelope_unwrap_only_wrapped. Qed.
+  envelope_unwrap_any d kek = Ok k -> exists p, k = copy16 p /\ wrap_any kek p = Some d.
+Proof. exact envelope_unwrap_any_only_wrapped. Qed.
 Print Assumptions C17_unwrap_only_wrapped.
 
-(* the envelope logic for ANY cipher (e.g. AES-192/256) whose wrap satisfies the RFC 3394 inverse law *)
-Theorem C17_unwrap_wrap_any_cipher :
-  forall (wrapf : list N -> list N -> list N) (unwrap_rawf : list N -> list N -> list N * list N),
-  (forall kek key, kek_len_ok kek = true -> length key = 16%nat -> Forall (fun b => b < 256) key ->
-     unwrap_rawf kek (wrapf kek key) = (default_iv, key) /\ length (wrapf kek key) = 24%nat) ->
-  forall label kek key,
-  label <> [] -> kek_len_ok kek = true -> length key = 16%nat -> Forall (fun b => b < 256) key ->
-  exists w, new_key_envelope_with wrapf label kek key = Ok (label, w) /\
-            envelope_unwrap_with unwrap_rawf w kek = Ok key.
-Proof. exact unwrap_wrap_with. Qed.
-Print Assumptions C17_unwrap_wrap_any_cipher.
+(* for 16-byte KEKs this is the AES-128 envelope model that C16 (join-server) uses *)
+Theorem C17_envelope_128_agrees : forall kek, length kek = 16%nat ->
+  (forall label key, new_key_envelope_any label kek key = new_key_envelope label kek key) /\
+  (forall d, envelope_unwrap_any d kek = envelope_unwrap d kek).
+Proof. exact envelope_any_128. Qed.
+Print Assumptions C17_envelope_128_agrees.
+
+(* ---------- ISO8601Time (RFC 3339 text form) ---------- *)
+Open Scope Z_scope.
+(* an instant (unix seconds s, zone offset off) whose local year is 0..9999, with a zone offset that is a whole
+   number of minutes and less than a day: the printed text parses back to the same instant and offset *)
+Theorem C17_iso8601_roundtrip : forall s off,
+  off mod 60 = 0 -> -86400 < off < 86400 -> -62167219200 <= s + off <= 253402300799 ->
+  parse_rfc3339 (format_rfc3339 s off) = Some (s, off).
+Proof. exact rfc3339_roundtrip. Qed.
+Print Assumptions C17_iso8601_roundtrip.
+
+(* "YYYY-MM-DDTHH:MM:SSZ" or "YYYY-MM-DDTHH:MM:SS+hh:mm" *)
+Theorem C17_iso8601_length : forall s off,
+  off mod 60 = 0 -> -86400 < off < 86400 -> -62167219200 <= s + off <= 253402300799 ->
+  length (format_rfc3339 s off) = if off =? 0 then 20%nat else 25%nat.
+Proof. exact rfc3339_length. Qed.
+Print Assumptions C17_iso8601_length.
+
+(* the calendar underneath: every day number (days since 1970-01-01, any sign) is a valid civil date with that
+   day number, and every valid civil date is the date of its day number *)
+Theorem C17_civil_from_days_valid : forall z y m d, civil_from_days z = (y, m, d) ->
+  1 <= m <= 12 /\ 1 <= d <= days_in_month y m /\ days_from_civil y m d = z.
+Proof. exact civil_from_days_valid. Qed.
+Print Assumptions C17_civil_from_days_valid.
+
+Theorem C17_civil_from_days_from_civil : forall y m d,
+  1 <= m <= 12 -> 1 <= d <= days_in_month y m -> civil_from_days (days_from_civil y m d) = (y, m, d).
+Proof. exact civil_from_days_from_civil. Qed.
+Print Assumptions C17_civil_from_days_from_civil.
+
+(* 2000-02-29T23:59:59Z; 1999-12-31T23:59:00-00:01; the first second of the year 0 at +23:59; month 13, 30 February,
+   29 February 2100, hour 24, second 60, lower-case z and a missing zone are refused; a fraction is accepted *)
+Example C17_iso8601_example :
+  parse_rfc3339 (format_rfc3339 951868799 0) = Some (951868799, 0) /\
+  format_rfc3339 946684800 (-60) = str [49; 57; 57; 57; 45; 49; 50; 45; 51; 49; 84; 50; 51; 58; 53; 57; 58; 48; 48; 45; 48; 48; 58; 48; 49] /\
+  parse_rfc3339 (format_rfc3339 (-62167305540) 86340) = Some (-62167305540, 86340) /\
+  map parse_rfc3339
+    [str [50; 48; 48; 48; 45; 49; 51; 45; 48; 49; 84; 48; 48; 58; 48; 48; 58; 48; 48; 90];
+     str [50; 48; 48; 48; 45; 48; 50; 45; 51; 48; 84; 48; 48; 58; 48; 48; 58; 48; 48; 90];
+     str [50; 49; 48; 48; 45; 48; 50; 45; 50; 57; 84; 48; 48; 58; 48; 48; 58; 48; 48; 90];
+     str [50; 48; 48; 48; 45; 48; 49; 45; 48; 49; 84; 50; 52; 58; 48; 48; 58; 48; 48; 90];
+     str [50; 48; 48; 48; 45; 48; 49; 45; 48; 49; 84; 50; 51; 58; 53; 57; 58; 54; 48; 90];
+     str [50; 48; 48; 48; 45; 48; 49; 45; 48; 49; 84; 48; 48; 58; 48; 48; 58; 48; 48; 122];
+     str [50; 48; 48; 48; 45; 48; 49; 45; 48; 49; 84; 48; 48; 58; 48; 48; 58; 48; 48];
+     str [50; 48; 48; 48; 45; 48; 49; 45; 48; 49; 84; 48; 48; 58; 48; 48; 58; 48; 48; 46; 53; 90]]
+  = [None; None; None; None; None; None; None; Some (946684800, 0)].
+Proof. vm_compute. repeat split; reflexivity. Qed.
+Open Scope N_scope.
 
 (* non-vacuity *)
 Example C17_example :
   freq_rt 868100000 = Some 868100000%Z /\ pct_rt 29 = Some 29%Z /\
   hexbytes_unmarshal (hexbytes_marshal [1; 255]) = Ok [1; 255] /\
-  new_key_envelope [107] rfc3394_kek rfc3394_key = Ok ([107], rfc3394_wrapped) /\
-  envelope_unwrap rfc3394_wrapped rfc3394_kek = Ok rfc3394_key.
+  new_key_envelope_any [107] rfc3394_kek rfc3394_key = Ok ([107], rfc3394_wrapped) /\
+  envelope_unwrap_any rfc3394_wrapped rfc3394_kek = Ok rfc3394_key /\
+  new_key_envelope_any [107] (seq_bytes 24) rfc3394_key = Ok ([107], rfc3394_4_2) /\
+  envelope_unwrap_any rfc3394_4_2 (seq_bytes 24) = Ok rfc3394_key /\
+  new_key_envelope_any [107] (seq_bytes 32) rfc3394_key = Ok ([107], rfc3394_4_3) /\
+  envelope_unwrap_any rfc3394_4_3 (seq_bytes 32) = Ok rfc3394_key.
 Proof. vm_compute. repeat split; reflexivity. Qed.
